@@ -97,5 +97,23 @@ PROPS["C15"] = {
     "assumptions": ["the data passed to Do is one fixed Args value (a type, a string, an int, a list)"],
 }
 
+PROPS["C04"] = {
+    "variants": ["v1", "v2"],
+    "lean": ["Gengo.Props.C04"],
+    "level": "proof",
+    "level_text": "TODO",
+    "level_note": "TODO",
+    "rule": "random configurations: 0..5 types, 1..3 targets with filters, 0..4 generators each with filters, nil/empty/new/overriding namer "
+            "sets, 3 file names (shared files), file types (registered, empty, conflicting, unregistered), vars/consts/imports; every fifth "
+            "with a failing hook. Non-trivial = a target with >= 2 generators; distinct = distinct configuration.",
+    "assumptions": [],
+}
+PROPS["C13"] = dict(PROPS["C04"], lean=["Gengo.Props.C13"], rule="fault enumeration: for each base configuration every fault position is "
+    "enumerated completely - each generator x {Init, each GenerateType call, Finalize}, each file x {creation blocked by a directory, formatting "
+    "failure}, target directory blocked by a file - plus the fault-free run; per-target runs and the run over all targets are compared.")
+PROPS["C10"] = dict(PROPS["C04"], variants=["v1"], lean=["Gengo.Props.C10"], rule="generate with the real code, then verify against the "
+    "on-disk copy after: no change, single-byte edits (first/middle/last position; thorough: every position of 20 files), truncation, extension, "
+    "deletion, missing output directory, an extra unrelated file, two bad files at once.")
+
 # properties not claimed, with the reason (kept current by hand)
 NOT_APPLICABLE = {}
